@@ -129,7 +129,9 @@ def fragmentations(rng, s, n_random=2, per_octet=True):
 # the IANA method registry (2024) plus extension tokens; GET/HEAD/TRACE several times so that they stay frequent
 WF_METHODS = [b'GET', b'GET', b'GET', b'HEAD', b'HEAD', b'POST', b'POST', b'PUT', b'DELETE', b'OPTIONS', b'PATCH', b'CONNECT', b'TRACE', b'X-M', b'ACL', b'BASELINE-CONTROL', b'BIND', b'CHECKIN', b'CHECKOUT', b'COPY',
 	b'LABEL', b'LINK', b'LOCK', b'MERGE', b'MKACTIVITY', b'MKCALENDAR', b'MKCOL', b'MKREDIRECTREF', b'MKWORKSPACE', b'MOVE', b'ORDERPATCH', b'PROPFIND', b'PROPPATCH', b'REBIND', b'REPORT', b'SEARCH', b'UNBIND',
-	b'UNCHECKOUT', b'UNLINK', b'UNLOCK', b'UPDATE', b'UPDATEREDIRECTREF', b'VERSION-CONTROL', b'QUERY', b'M-SEARCH', b'x_$.1']
+	b'UNCHECKOUT', b'UNLINK', b'UNLOCK', b'UPDATE', b'UPDATEREDIRECTREF', b'VERSION-CONTROL', b'QUERY', b'M-SEARCH', b'x_$.1',
+	# every tchar of RFC 7230 3.2.6 occurs in some method token (the last six are refused by the code: known finding D61)
+	b'UPDATE+MERGE', b'A%B', b"X'Y", b'P*Q', b'R^S', b'T&U', b'a.b-c_d$e', b'A!B', b'C#D', b'E`F', b'G|H', b'I~J', b'ABCDEFGHIJKLMNOPQRSTU']
 TOKEN_NAMES = [b'Cookie', b'cookie', b'Foo', b'X-Custom', b'accept', b'ACCEPT-LANGUAGE', b'x-a.b', b'User-Agent', b'Via', b'x_1', b'Cache-Control', b'If-None-Match']
 
 
@@ -166,7 +168,7 @@ def gen_wf(rng, kind, n=None):
 				target = path + (b'?' + query if query else b'')
 				gt.update(path=path.decode(), query=query.decode())
 			else:
-				target = b'http://' + hostv + path + (b'?' + query if query else b'')
+				target = rng.choice([b'http://', b'http://', b'https://', b'HTTP://', b'hTTps://']) + hostv + path + (b'?' + query if query else b'')
 				gt.update(path=path.decode(), query=query.decode())
 			line = method + b' ' + target + b' HTTP/%d.%d' % ver
 			gt.update(method=method.decode(), target=target.hex(), host=hostv.decode())
